@@ -24,4 +24,14 @@ def editB : List Record → List Record → Bool
   | r :: v, r' :: v' => r'.fixed == r.fixed && editCallsB r.calls r'.calls && editB v v'
   | _, _ => false
 
+/-! ### histories: any sequence of phase (a phase-only edit) and unphase applications -/
+
+inductive HistStep (v v' : List Record) : Prop
+  | edit : PhaseOnlyEdit v v' → HistStep v v'
+  | unphased : v' = unphase v → HistStep v v'
+
+inductive History : List Record → List Record → Prop
+  | refl (v : List Record) : History v v
+  | step {v v' v'' : List Record} : HistStep v v' → History v' v'' → History v v''
+
 end WhVerif.C13
